@@ -347,7 +347,10 @@ def single_writer_runs(ctx):
     sig_cov = {"runs": 0, "published": 0}
     if sandbox.available():
         hooked = os.path.join(ctx.build_repo(["clock-bound-d"], release=False, features=["verif-hooks"]), "clockbound")
-        specs = ["", "SIGTERM", "SIGINT", "SIGHUP", "SIGUSR1", "SIGUSR2", "SIGQUIT", "SIGALRM", ":poller.loop:2:panic", ":writer.recv:2:return", "SIGTERM:poller.recv:3:panic"]
+        specs = ["", "SIGTERM", "SIGINT", "SIGHUP", "SIGUSR1", "SIGUSR2", "SIGQUIT", "SIGALRM", ":poller.loop:2:panic", ":writer.recv:2:return", "SIGTERM:poller.recv:3:panic",
+                 # the polling thread dies while the writer thread is held up (alive, its writer open): whatever the
+                 # main thread does on the way out happens next to a live writer
+                 "DIE:writer.recv:3:stall2500", "DIE:writer.done:2:stall2500", "SIGTERM:writer.recv:3:stall2500"]
         cmds, outs = [], []
         for i, sp in enumerate(specs):
             o = os.path.join(ctx.tmp, "c02stop-%d.json" % i)
